@@ -570,13 +570,19 @@ private:
     int iter = 0;
     while (n >= low)
     {
-      // Look for single small sub-diagonal element
+      // Look for single small sub-diagonal element.
+      // The test is relative to the two neighbouring diagonal entries. When the
+      // iteration stagnates (numerically decoupled blocks whose diagonal is only
+      // rounding noise, e.g. skew-symmetric matrices with repeated eigenvalues: the
+      // coupling is neither reduced by the sweeps nor recognised as negligible),
+      // fall back to the test relative to the norm of the matrix, which is still
+      // backward stable.
 
       int l = n;
       while (l > low)
       {
         s = NumTools::abs<Real>(H_(TOST(l - 1), TOST(l - 1))) + NumTools::abs<Real>(H_(TOST(l), TOST(l)));
-        if (s == 0.0)
+        if (s == 0.0 || iter > 60)
         {
           s = norm;
         }
